@@ -641,6 +641,142 @@ fn c17_random(input: &Input, ctx: &mut Ctx) -> CaseResult {
     Ok(())
 }
 
+// ---------------------------------------------------------------------------------------
+// runs: special characters at every position of medium-length runs of ordinary characters
+// (validators that scan several bytes at a time have their boundaries here)
+
+const RUN_PREFIXES: &[&str] = &["", "a/", "$share/g/", "/"];
+const RUN_LENS: &[usize] = &[0, 1, 7, 8, 9, 15, 16, 17, 31, 32, 33, 48, 63, 64, 65];
+
+/// index -> string. Family 0: filler^a c filler^b with a, b in 0..=70; family 1: filler^a c1 filler^b c2 filler^d
+/// with a, b, d from RUN_LENS.
+fn run_string(specials: &[char], idx: u64) -> Option<String> {
+    let np = RUN_PREFIXES.len() as u64;
+    let nf = 2u64;
+    let ns = specials.len() as u64;
+    let fam0 = 71 * 71 * ns * nf * np;
+    let fill = |f: u64| if f == 0 { 'x' } else { '\u{e9}' };
+    let mut s = String::new();
+    if idx < fam0 {
+        let mut i = idx;
+        let a = (i % 71) as usize;
+        i /= 71;
+        let b = (i % 71) as usize;
+        i /= 71;
+        let c = specials[(i % ns) as usize];
+        i /= ns;
+        let f = fill(i % nf);
+        i /= nf;
+        s.push_str(RUN_PREFIXES[(i % np) as usize]);
+        for _ in 0..a {
+            s.push(f);
+        }
+        s.push(c);
+        for _ in 0..b {
+            s.push(f);
+        }
+        return Some(s);
+    }
+    let mut i = idx - fam0;
+    let nl = RUN_LENS.len() as u64;
+    let fam1 = nl * nl * nl * ns * ns * nf * np;
+    if i >= fam1 {
+        return None;
+    }
+    let a = RUN_LENS[(i % nl) as usize];
+    i /= nl;
+    let b = RUN_LENS[(i % nl) as usize];
+    i /= nl;
+    let d = RUN_LENS[(i % nl) as usize];
+    i /= nl;
+    let c1 = specials[(i % ns) as usize];
+    i /= ns;
+    let c2 = specials[(i % ns) as usize];
+    i /= ns;
+    let f = fill(i % nf);
+    i /= nf;
+    s.push_str(RUN_PREFIXES[(i % np) as usize]);
+    for _ in 0..a {
+        s.push(f);
+    }
+    s.push(c1);
+    for _ in 0..b {
+        s.push(f);
+    }
+    s.push(c2);
+    for _ in 0..d {
+        s.push(f);
+    }
+    Some(s)
+}
+
+fn run_count(specials: &[char]) -> u64 {
+    let (np, nf, ns, nl) = (RUN_PREFIXES.len() as u64, 2u64, specials.len() as u64, RUN_LENS.len() as u64);
+    71 * 71 * ns * nf * np + nl * nl * nl * ns * ns * nf * np
+}
+
+const FILTER_SPECIALS: &[char] = &['+', '#', '/', '\0', '$'];
+const NAME_SPECIALS: &[char] = &['+', '#', '\0', '/', '$'];
+
+/// nums = [start, count]
+fn c16_runs(input: &Input, ctx: &mut Ctx) -> CaseResult {
+    let n = input.nums();
+    let mut valid = 0u64;
+    let mut done = 0u64;
+    for i in n[0]..n[0] + n[1] {
+        let s = match run_string(FILTER_SPECIALS, i) {
+            Some(s) => s,
+            None => break,
+        };
+        match check_filter(&s, i % 4 == 0, i % 64 == 0) {
+            Ok(v) => valid += v as u64,
+            Err(m) => {
+                ctx.refine = Some(("c16.single", Input::Text(s.into_bytes())));
+                return Err(Violation::new(m));
+            }
+        }
+        done += 1;
+    }
+    ctx.more_evals(done.saturating_sub(1));
+    ctx.count_distinct(done);
+    ctx.label_n("valid", valid);
+    ctx.label_n("invalid", done - valid);
+    if n[0] == 0 {
+        ctx.sample(|| format!("e.g. {:?}", run_string(FILTER_SPECIALS, 71 * 16 + 3)));
+    }
+    Ok(())
+}
+
+fn c18_runs(input: &Input, ctx: &mut Ctx) -> CaseResult {
+    let n = input.nums();
+    let mut valid = 0u64;
+    let mut done = 0u64;
+    for i in n[0]..n[0] + n[1] {
+        let s = match run_string(NAME_SPECIALS, i) {
+            Some(s) => s,
+            None => break,
+        };
+        match check_name(&s, i % 4 == 0, i % 64 == 0) {
+            Ok(v) => valid += v as u64,
+            Err(m) => {
+                ctx.refine = Some(("c18.single", Input::Text(s.into_bytes())));
+                return Err(Violation::new(m));
+            }
+        }
+        done += 1;
+    }
+    ctx.more_evals(done.saturating_sub(1));
+    ctx.count_distinct(done);
+    ctx.label_n("valid", valid);
+    ctx.label_n("invalid", done - valid);
+    if n[0] == 0 {
+        ctx.sample(|| format!("e.g. {:?}", run_string(NAME_SPECIALS, 71 * 40 + 32)));
+    }
+    Ok(())
+}
+
+pub const C16_RUNS: Sub = Sub { name: "c16.runs", f: c16_runs };
+pub const C18_RUNS: Sub = Sub { name: "c18.runs", f: c18_runs };
 pub const C16_RANDOM: Sub = Sub { name: "c16.random-long", f: c16_random };
 pub const C17_RANDOM: Sub = Sub { name: "c17.random", f: c17_random };
 pub const C18_RANDOM: Sub = Sub { name: "c18.random-long", f: c18_random };
@@ -654,7 +790,7 @@ pub const C18_BLOCK: Sub = Sub { name: "c18.block", f: c18_block };
 pub const C18_SINGLE: Sub = Sub { name: "c18.single", f: c18_single };
 
 pub fn subs() -> Vec<Sub> {
-    vec![C16_BLOCK, C16_SINGLE, C16_RANDOM, C17_BLOCK, C17_SINGLE, C17_TRIPLE, C17_RANDOM, C18_BLOCK, C18_SINGLE, C18_RANDOM]
+    vec![C16_RUNS, C18_RUNS, C16_BLOCK, C16_SINGLE, C16_RANDOM, C17_BLOCK, C17_SINGLE, C17_TRIPLE, C17_RANDOM, C18_BLOCK, C18_SINGLE, C18_RANDOM]
 }
 
 const BLOCK: u64 = 4_096;
@@ -689,6 +825,10 @@ pub fn run_c16(env: &mut Env) -> RunResult {
         .map(|s| Input::Text(s.as_bytes().to_vec()))
         .collect();
     env.run_inputs(C16_SINGLE, &reg)?;
+    let total = run_count(FILTER_SPECIALS);
+    env.run_enum(C16_RUNS, total.div_ceil(2_048), true, |i| Input::Nums(vec![i * 2_048, 2_048]))?;
+    env.require("c16.runs", "valid");
+    env.require("c16.runs", "invalid");
     env.run_tapes(C16_RANDOM, env.tier.sel(150, 3_000), 40)?;
     env.note(format!("bounded-exhaustive: all strings over {:?} of length <= {} alone and of length <= {} behind each of the prefixes {:?}", FILTER_ALPHA, ml, mlp, &FILTER_PREFIXES[1..]));
     env.require("c16.random-long", "len=65535");
@@ -727,6 +867,10 @@ pub fn run_c18(env: &mut Env) -> RunResult {
     let n = b.len() as u64;
     env.run_enum(C18_BLOCK, n, true, move |i| b[i as usize].clone())?;
     env.run_inputs(C18_SINGLE, &long_names())?;
+    let total = run_count(NAME_SPECIALS);
+    env.run_enum(C18_RUNS, total.div_ceil(2_048), true, |i| Input::Nums(vec![i * 2_048, 2_048]))?;
+    env.require("c18.runs", "valid");
+    env.require("c18.runs", "invalid");
     env.run_tapes(C18_RANDOM, env.tier.sel(150, 3_000), 40)?;
     env.require("c18.random-long", "len=65535");
     env.require("c18.random-long", "len>65535");
